@@ -1,6 +1,6 @@
 SPECIFICATION SpecS
 CONSTANTS
-    Chan = {0}
+    Chan = {0, 2}
     Peer = {1, 2}
     MaxOps = 4
     Impl = "Design"
